@@ -650,7 +650,9 @@ def box_set_cases(draw):
             p = [v / 2.0 for v in p]
             q = [v / 2.0 for v in q]
         kind = mode
-        exact = True     # half-integers in [-3, 3]: dyadic, the code under test computes exactly
+        # exact equality (touching included) is demanded on the integer lattice only, as the property quantifies;
+        # half-integer cases fall under the float rule (compared when the answer is robust to +-1e-9)
+        exact = not half
     return {"p": p, "q": q, "boxes": boxes, "rot_p": draw(_rot()), "rot_q": draw(_rot()),
             "reg": draw(st.sampled_from(["list", "list", "tm"])), "exact": exact, "kind": kind, "also_reversed": True}
 
